@@ -111,6 +111,8 @@ structure Spec where
   closeHeight : Nat
   /-- `OutgoingBroadcastDelta` -/
   delta : Nat
+  /-- CSV delay of second-level / commitment outputs handled by the utxo nursery -/
+  csv : Nat := 4
   contracts : List Contract
   /-- outgoing dust htlcs: failed upstream in `StateDefault` (HtlcFailDustAction). -/
   dustFails : List Nat
@@ -151,6 +153,8 @@ structure Facts where
   spent2 : List Nat := []
   /-- preimage known for the incoming htlc with this key -/
   preimages : List Nat := []
+  /-- second-level transaction of the htlc with this key confirmed at this height -/
+  confs : List (Nat × Nat) := []
   breachDone : Bool := false
   deriving DecidableEq, Repr, Inhabited
 
@@ -159,7 +163,7 @@ def Facts.spendOf (f : Facts) (k : Nat) : Option SpendKind :=
 
 inductive Fact
   | height (h : Nat) | close | spend1 (k : Nat) (by_ : SpendKind) | spend2 (k : Nat)
-  | preimage (k : Nat) | breachDone
+  | preimage (k : Nat) | breachDone | conf (k : Nat) (h : Nat)
   deriving DecidableEq, Repr, Inhabited
 
 def Facts.add (f : Facts) : Fact → Facts
@@ -169,6 +173,16 @@ def Facts.add (f : Facts) : Fact → Facts
   | .spend2 k => { f with spent2 := if f.spent2.contains k then f.spent2 else k :: f.spent2 }
   | .preimage k => { f with preimages := if f.preimages.contains k then f.preimages else k :: f.preimages }
   | .breachDone => { f with breachDone := true }
+  | .conf k h => { f with confs := if f.confs.any (·.1 == k) then f.confs else f.confs ++ [(k, h)] }
+
+def Facts.confOf (f : Facts) (k : Nat) : Option Nat := (f.confs.find? (·.1 == k)).map (·.2)
+
+/-- stage of an output in the utxo nursery store (nursery_store.go): preschool (waiting for the
+    confirmation of the transaction that creates it), kindergarten (filed in the height index under
+    the class height at which it is swept), graduated. -/
+inductive NStage
+  | preschool | kinder (cls : Nat) | graduated
+  deriving DecidableEq, Repr, Inhabited
 
 /-- the durable arbitrator log. -/
 structure Log where
@@ -249,13 +263,14 @@ structure Sys where
   resolvedKeys : List Nat := []
   /-- ghost: number of stops so far -/
   crashes : Nat := 0
-  /-- durable: htlc outputs persisted in the utxo nursery store by `IncubateOutputs` -/
-  nursery : List Nat := []
+  /-- durable: htlc outputs persisted in the utxo nursery store by `IncubateOutputs`, with stage -/
+  nursery : List (Nat × NStage) := []
   facts : Facts := {}
   deriving Repr, Inhabited
 
 inductive Action
   | main | res (k : Nat) | resAlt (k : Nat) | crash | fact (f : Fact) | forceClose
+  | nursery (k : Nat)
   deriving DecidableEq, Repr, Inhabited
 
 /-! ### `stateStep` pieces -/
@@ -506,7 +521,9 @@ def resApply (s : Sys) (k : Nat) (r : RunRes) : ResRes → Option Sys
   | .blocked => none
   | .die => some { s with active := setActive s.active k { r with pc := .dead } }
   | .incubate =>
-    some { s with nursery := if s.nursery.contains k then s.nursery else k :: s.nursery,
+    -- `Incubate` → `enterPreschool`: ignored when the output already sits in preschool
+    some { s with nursery := if s.nursery.any (fun p => p.1 == k && p.2 == .preschool) then s.nursery
+                             else s.nursery ++ [(k, .preschool)],
                   active := setActive s.active k { r with handed := true } }
   | .put ms rec pc =>
     some { s with msgs := s.msgs ++ ms,
@@ -549,10 +566,39 @@ def restart (s : Sys) : Sys :=
            relaunch := s.log.state == .waitingFull,
            evSeen := false, active := [], crashes := s.crashes + 1 }
 
+/-- one durable write of the utxo nursery for the output of htlc `k` (utxonursery.go):
+    * preschool, confirmation (historical or live) at `hc` → `PreschoolToKinder(kid, lastGradHeight)`:
+      class `hc + csv`, but a late registration (`hc + csv ≤` the best height the nursery knows,
+      which `Start` / every new block set to the chain tip) is filed under `best + 1`;
+    * kindergarten, class height reached (live block or replay at start), sweep confirmed →
+      `GraduateKinder`;
+    * everything graduated → `RemoveChannel`. -/
+def nurseryStep (sp : Spec) (s : Sys) (k : Nat) : Option Sys :=
+  if s.nursery.any (fun p => p.1 == k && p.2 == .preschool) then
+    match s.facts.confOf k with
+    | some hc =>
+      let cls := if hc + sp.csv ≤ s.facts.height then s.facts.height + 1 else hc + sp.csv
+      -- the preschool entry is deleted, the kindergarten entry (over)written
+      some { s with nursery :=
+               s.nursery.filter (fun p => !(p.1 == k && p.2 != .graduated)) ++ [(k, .kinder cls)] }
+    | none => none
+  else
+    match s.nursery.find? (fun p => p.1 == k && p.2 != .graduated) with
+    | some (_, .kinder cls) =>
+      if cls ≤ s.facts.height && s.facts.spent2.contains k then
+        some { s with nursery := s.nursery.map fun p =>
+                 if p.1 == k && p.2 == .kinder cls then (k, .graduated) else p }
+      else none
+    | _ =>
+      if !s.nursery.isEmpty && s.nursery.all (fun p => p.2 == .graduated) then
+        some { s with nursery := [] }
+      else none
+
 def step (sp : Spec) (s : Sys) : Action → Option Sys
   | .main => mainStep sp s
   | .res k => resStep sp s k
   | .resAlt k => resAltStep sp s k
+  | .nursery k => nurseryStep sp s k
   | .crash => some (restart s)
   | .fact f => some { s with facts := s.facts.add f }
   | .forceClose =>
